@@ -21,6 +21,11 @@ def regex_delimiter(ncols):
     return "regex:^" + r" \| ".join(["(.*?)"] * ncols) + "$"
 
 
+def regex_delimiter_named(ncols):
+    """Like regex_delimiter, with named groups (their position in the pattern is their column)."""
+    return "regex:^" + r" \| ".join(["(?P<c%d>.*?)" % i for i in range(ncols)]) + "$"
+
+
 def regex_delimiter_opt(ncols):
     """Like regex_delimiter, but the last column is an optional group (absent on short lines)."""
     return "regex:^" + r" \| ".join(["(.*?)"] * (ncols - 1)) + r"(?: \| (.*))?$"
